@@ -134,6 +134,7 @@ pub enum ParameterKind {
   String,
   Callable,
   Enumerator,
+  Class,
 }
 
 impl ParameterKind {
@@ -152,6 +153,7 @@ impl ParameterKind {
       ),
       (ParameterKind::String, ValueKind::Obj) => value.is_obj_kind(ObjectKind::String),
       (ParameterKind::Enumerator, ValueKind::Obj) => value.is_obj_kind(ObjectKind::Enumerator),
+      (ParameterKind::Class, ValueKind::Obj) => value.is_obj_kind(ObjectKind::Class),
       _ => false,
     }
   }
@@ -185,6 +187,7 @@ impl Display for ParameterKind {
       ParameterKind::String => write!(f, "string"),
       ParameterKind::Callable => write!(f, "callable"),
       ParameterKind::Enumerator => write!(f, "iterator"),
+      ParameterKind::Class => write!(f, "class"),
     }
   }
 }
